@@ -46,8 +46,50 @@ def option_unit(kf):
     return u
 
 
-UNITS = {'c03_option_resolve': (['C03'], option_unit)}
-SEARCH = {'c03_option_resolve': ['c03_errors']}
+
+TAIL_SHIMS = r'''
+// trusted shims for the tail of Schema::execute_once (E2 fragment): Response, and QueryEnv's Mutex-guarded lists (R-interior)
+pub struct RespValue { pub id: u64 }
+pub struct Response { pub data: Option<RespValue>, pub errors: Vec<ServerError> }
+impl Response {
+    pub fn new(v: RespValue) -> (r: Response) ensures r.data == Some(v), r.errors@ == Seq::<ServerError>::empty() { Response { data: Some(v), errors: Vec::new() } }
+    pub fn from_errors(e: Vec<ServerError>) -> (r: Response) ensures r.data is None, r.errors@ == e@ { Response { data: None, errors: e } }
+}
+pub fn vec_one(e: ServerError) -> (r: Vec<ServerError>) ensures r@ == seq![e] { let mut v = Vec::new(); v.push(e); v }
+pub struct QueryEnv { pub errors: Vec<ServerError> }
+impl QueryEnv {
+    // std::mem::take(&mut *env.errors.lock().unwrap())
+    #[verifier::external_body]
+    pub fn take_errors(&mut self) -> (r: Vec<ServerError>) ensures r@ == old(self).errors@, final(self).errors@ == Seq::<ServerError>::empty() { unimplemented!() }
+}
+#[verifier::external_body]
+pub fn extend_errors(dst: &mut Vec<ServerError>, src: Vec<ServerError>) ensures final(dst)@ == old(dst)@ + src@ { unimplemented!() }
+'''
+
+
+def tail_unit(kf):
+    u = Unit('c03_execute_once_tail', ['C03'], 'the response carries the propagated error (if any) followed by every error captured at nullable positions')
+    u.kf = kf
+    u.trusted(SHIMS, 'context shims')
+    u.trusted(TAIL_SHIMS, 'Response / QueryEnv shims')
+    u.extract_fragment('src/schema.rs', ['impl<Query, Mutation, Subscription> Schema<Query, Mutation, Subscription>', 'fn execute_once'],
+                       'let mut resp = match res {', 'resp.errors .extend(std::mem::take(&mut *env.errors.lock().unwrap()));',
+                       name='execute_once_tail',
+                       header='fn execute_once_tail(res: Result<RespValue, ServerError>, env: &mut QueryEnv) -> (resp: Response)',
+                       footer='    resp\n}',
+                       rewrites=[Sub('.http_headers(std::mem::take(&mut *env.http_headers.lock().unwrap()))', '', rule='R-interior'),
+                                 Sub('Response::from_errors(vec![err])', 'Response::from_errors(vec_one(err))', rule='R-ty'),
+                                 Sub('resp.errors .extend(std::mem::take(&mut *env.errors.lock().unwrap()));', 'extend_errors(&mut resp.errors, env.take_errors());', rule='R-interior')],
+                       ensures=['resp.errors@ == (match res { Ok(_) => Seq::<ServerError>::empty(), Err(e) => seq![e] }) + old(env).errors@   // captured errors are reported whether or not the root resolved',
+                                'match res { Ok(v) => resp.data == Some(v), Err(_) => resp.data is None }',
+                                'final(env).errors@ == Seq::<ServerError>::empty()'])
+    u.assume('execute_once: only the response-assembly fragment (E2) is under contract; http headers dropped; the Mutex-guarded error list is modelled as &mut state (R-interior)')
+    u.search_case('schema.rs', 'c03_errors')
+    return u
+
+
+UNITS = {'c03_option_resolve': (['C03'], option_unit), 'c03_execute_once_tail': (['C03'], tail_unit)}
+SEARCH = {'c03_option_resolve': ['c03_errors'], 'c03_execute_once_tail': ['c03_errors']}
 BOUNDED = {'C03': [dict(case='c03_errors', function='error capture through src/resolver_utils/{container,list}.rs, src/types/external/optional.rs, src/dynamic/resolve.rs (static and dynamic schemas, through Schema::execute)',
                         bound='~40 queries over one static and one dynamic schema whose resolvers fail at chosen positions (nullable / non-null fields, nested objects, list items); response data, error count and error paths compared with the GraphQL spec\'s error propagation',
                         why='the executor is async over dyn Future / try_join_all and derive-generated resolve_field; only the Option<T> absorption kernel is under contract')]}
